@@ -397,6 +397,15 @@ func fixedCases() []corr.Case {
 		out = append(out, mk("stress", "init 1 pipe", "stress race "+strconv.Itoa(seed)))
 	}
 	out = append(out, mk("stress", "init 1 pipe", "stress big 1"), mk("stress", "init 1 pipe", "stress big 2"))
+	// partial write, then a write timeout / another temporary error — once; later Writes would succeed: the session
+	// must end and must not write anything again (the peer's bytes stay a prefix of the accepted sends)
+	for _, op := range []string{"wpart", "wtemp"} {
+		for _, n := range []string{"0", "1", "2", "9"} {
+			out = append(out, mk("partial-write", "init 1 pipe", "conn", "send 0 09", op+" 0 "+n, "send 0 01020304", "send 0 05", "conn"))
+			out = append(out, mk("partial-write", "init 1 pipe", "conn", "hold 0", "send 0 aabbcc", "send 0 dd", op+" 0 "+n, "drain 0", "send 0 ee", "conn"))
+			out = append(out, mk("partial-write", "init 2 pipe", "conn", "hold 0", "send 0 aabbcc", "drain 0", op+" 0 "+n, "hold 0", "send 0 0102", "close 0", "drain 0"))
+		}
+	}
 	// real timeouts (read 60 ms, write 250 ms) and loopback TCP
 	out = append(out,
 		mk("real-timeout", "init 2 rt", "conn", "conn", "send 0 aa", "conn"),
@@ -477,6 +486,13 @@ func genCase(r *rng.R, tier string, i int) corr.Case {
 		}
 		if r.Chance(1, 25) {
 			lines = append(lines, "uh "+ks)
+			continue
+		}
+		if r.Chance(1, 14) {
+			lines = append(lines, r.Pick("wpart", "wtemp")+" "+ks+" "+strconv.Itoa(r.Intn(4)))
+			if r.Bool() {
+				lines = append(lines, "send "+ks+" "+payload(r))
+			}
 			continue
 		}
 		if r.Chance(1, 60) {
@@ -648,7 +664,7 @@ func genOnExit(r *rng.R) corr.Case {
 
 func genMalformed(r *rng.R) corr.Case {
 	ls := []string{"init 1 pipe", "conn"}
-	bad := []string{"aerr 0", "stress", "stress race", "stress race x", "uh", "xpanic", "init 1 pubz", "burst 0", "burst 9", "burst", "burst x", "cerr", "send 0", "send 0 0", "send 0 0g", "send 0 AA", "close 1", "close", "pclose x", "conn 1", "frob 0", "init", "init 1", "init 1 foo", "hold", "send 5 aa", "rerr -1", "wto 0 0"}
+	bad := []string{"wpart 0", "wpart 0 x", "wtemp 0 -1", "aerr 0", "stress", "stress race", "stress race x", "uh", "xpanic", "init 1 pubz", "burst 0", "burst 9", "burst", "burst x", "cerr", "send 0", "send 0 0", "send 0 0g", "send 0 AA", "close 1", "close", "pclose x", "conn 1", "frob 0", "init", "init 1", "init 1 foo", "hold", "send 5 aa", "rerr -1", "wto 0 0"}
 	for j := r.Range(2, 6); j > 0; j-- {
 		if r.Chance(1, 3) {
 			ls = append(ls, r.Pick("send 0 aa", "pdata 0", "conn"))
@@ -657,6 +673,38 @@ func genMalformed(r *rng.R) corr.Case {
 		}
 	}
 	return corr.Case{Tag: "malformed", Lines: ls}
+}
+
+// firstDiff names the first observable in which two result lines differ.
+func firstDiff(want, got string) string {
+	if strings.HasPrefix(got, "crash") || strings.HasPrefix(want, "crash") {
+		return "crash"
+	}
+	if got == "bad-op" || want == "bad-op" {
+		return "bad-op"
+	}
+	split := func(l string) []string {
+		return strings.FieldsFunc(l, func(r rune) bool { return r == ' ' || r == ',' || r == '/' || r == '{' || r == '}' || r == '|' })
+	}
+	a, b := split(want), split(got)
+	for i := 0; i < len(a) && i < len(b); i++ {
+		if a[i] == b[i] {
+			continue
+		}
+		t := b[i]
+		if j := strings.Index(t, ":"); j >= 0 && j < 3 {
+			t = t[j+1:]
+		}
+		k := 0
+		for k < len(t) && t[k] >= 'a' && t[k] <= 'z' {
+			k++
+		}
+		if k == 0 {
+			return "line"
+		}
+		return t[:k]
+	}
+	return "sessions"
 }
 
 func spec() corr.Spec {
@@ -670,7 +718,7 @@ func spec() corr.Spec {
 			case "thorough":
 				return 150000
 			}
-			return 200000
+			return 40000 // S7 after a broken tie must stay well under two minutes
 		},
 		Shards: func(tier string) int {
 			if tier == "quick" {
@@ -680,6 +728,10 @@ func spec() corr.Spec {
 		},
 		Gen: genCase,
 		Run: runCase,
+		// one key per observable that differs (not per op): r | n | rej | x | c | l | d | rd | crash
+		Classify: func(c corr.Case, line int, want, got string) string {
+			return "C16:corr:" + firstDiff(want, got)
+		},
 		NonTrivial: func(c corr.Case, r corr.Result) bool {
 			// at least one session was started and something happened to it
 			acc, act := false, false
@@ -694,7 +746,7 @@ func spec() corr.Spec {
 			}
 			return acc && act
 		},
-		Rule: "scripts of connection attempts (single and in bursts of 2..8 without observation in between) against maxConn -1..3 and, per session, Send (incl. zero-length), local Close, peer close, peer reading/not reading, handler data/error/panic/panic(nil), injected read/write errors, forced and real (60 ms read / 250 ms write) timeouts, failing Set*Deadline, a failing conn.Close, repeated Start; every terminating event alone and in every ordered pair, with and without a blocked write and queued items; 0..5 queued sends before a local Close; sessions over net.Pipe through the real accept loop and over loopback TCP; a case is non-trivial when a session was started and at least one operation was applied to it; distinct = distinct script text",
+		Rule: "scripts of connection attempts (single and in bursts of 2..8 without observation in between) against maxConn -1..3 and, per session, Send (incl. zero-length), local Close, peer close, peer reading/not reading, handler data/error/panic/panic(nil), injected read/write errors, forced and real (60 ms read / 250 ms write) timeouts, failing Set*Deadline, a partial write followed by a timeout / temporary error, a failing conn.Close, repeated Start; every terminating event alone and in every ordered pair, with and without a blocked write and queued items; 0..5 queued sends before a local Close; sessions over net.Pipe through the real accept loop and over loopback TCP; a case is non-trivial when a session was started and at least one operation was applied to it; distinct = distinct script text",
 		Assumptions: []string{
 			"net.Conn behaviour is assumed at the transition level: closing a connection (or the peer closing) makes the blocked Read/Write of the other loop return an error; a Write to a peer that does not read blocks; deadlines fire (checked on net.Pipe and loopback TCP by the correspondence, not proved)",
 			"sync.Once, sync.Cond, atomic.Int32 behave as documented; the Go scheduler eventually runs a runnable goroutine",
